@@ -198,7 +198,8 @@ func checkC17(c *check.Ctx) int {
 		hist  int
 	}
 	var jobs []job
-	unknown := [][]string{{"DISABLE_NOTHING"}, {"disable_session_state"}, {"DISABLE_ENTITY_ADD_BROADCAST ", "X"}, {"", "DISABLE_PARTICIPANT_JOIN"}}
+	unknown := [][]string{{"DISABLE_NOTHING"}, {"disable_session_state"}, {"DISABLE_ENTITY_ADD_BROADCAST ", "X"}, {"", "DISABLE_PARTICIPANT_JOIN"},
+		{"", allFlags[int(c.Seed)%len(allFlags)]}, {allFlags[int(c.Seed+4)%len(allFlags)], "", allFlags[int(c.Seed+7)%len(allFlags)]}}
 	if c.Quick() {
 		jobs = append(jobs, job{nil, 0})
 		for i := range allFlags {
@@ -294,7 +295,8 @@ func partFlagsRealBinary(c *check.Ctx, a *acc) {
 	want := map[int32]int{d.TSessionState: 3, d.TJoinBcast: 3, d.TEntityAddBcast: 2, d.TCompAddBcast: 2, d.TCompUpdateBcast: 2, d.TPoseBcast: 2,
 		d.TCustomBcast: 2, d.TCompDelBcast: 2, d.TEntityDelBcast: 2, d.TLeaveBcast: 2}
 	var sets [][]string
-	sets = append(sets, nil, flagSubset(1023), []string{"DISABLE_UNKNOWN_THING", "disable_session_state"})
+	sets = append(sets, nil, flagSubset(1023), []string{"DISABLE_UNKNOWN_THING", "disable_session_state"},
+		[]string{"", allFlags[int(c.Seed+1)%len(allFlags)]}, []string{allFlags[int(c.Seed+2)%len(allFlags)], "", "DISABLE_NOTHING", allFlags[int(c.Seed+5)%len(allFlags)]})
 	for i := range allFlags {
 		if c.Quick() && i%3 != int(c.Seed)%3 {
 			continue
@@ -557,19 +559,31 @@ func partFlagScript(c *check.Ctx, a *acc, bin string) {
 	}
 	var jobs []job
 	if c.Quick() {
-		jobs = append(jobs, job{nil, int(c.Seed) % 4})
+		jobs = append(jobs, job{nil, int(c.Seed) % 8})
 		for i := range allFlags {
-			jobs = append(jobs, job{flagSubset(1 << i), (i + int(c.Seed)) % 4})
+			jobs = append(jobs, job{flagSubset(1 << i), (i + int(c.Seed)) % 8})
 		}
 		jobs = append(jobs, job{flagSubset(1023), 0}, job{flagSubset(1023), 1})
 		x := uint64(c.Seed)*6364136223846793005 + 99
 		for i := 0; i < 8; i++ {
 			x = x*6364136223846793005 + 1442695040888963407
-			jobs = append(jobs, job{flagSubset(int(x>>33) % 1024), i % 4})
+			jobs = append(jobs, job{flagSubset(int(x>>33) % 1024), i % 8})
 		}
 	} else {
 		for m := 0; m < 1024; m++ {
-			jobs = append(jobs, job{flagSubset(m), m % 4}, job{flagSubset(m), (m + 1) % 4})
+			jobs = append(jobs, job{flagSubset(m), m % 8}, job{flagSubset(m), (m + 3) % 8})
+		}
+	}
+	// the configured value is a list, not a set: empty and unknown names at any
+	// position, repeated names, any order - a known flag keeps its effect
+	for i, f := range allFlags {
+		g := allFlags[(i+3)%len(allFlags)]
+		lists := [][]string{{"", f}, {g, "", f}, {"DISABLE_NOTHING", f, ""}, {f, f}, {g, f}, {f, g}, {" ", f}}
+		for k, l := range lists {
+			if c.Quick() && (i+k+int(c.Seed))%3 != 0 {
+				continue
+			}
+			jobs = append(jobs, job{l, (i + k) % 8})
 		}
 	}
 	var mu sync.Mutex
@@ -605,4 +619,86 @@ func partFlagScript(c *check.Ctx, a *acc, bin string) {
 	c.Coverage["flag_script_events_removed_by_flag_filter"] = suppressed
 	a.add(done, nontrivial, "E5 departure script: a directed history in which every suppressible class occurs and the sole subscriber of a component type leaves (close, reset or session switch) before components of that type are added and deleted in front of a bystander, owners with attachments leave and a newcomer is handed the state; run without flags and under a flag set, compared window by window and judged by the flag-aware model; non-trivial when the flag set suppressed something",
 		map[string]any{"engine": "E5 flag differential, departure script", "runs": done, "windows_compared": compared})
+}
+
+// partDepartureScripts: the directed departure scripts (all variants) judged by
+// the reference model - subscriptions, entities and attachments of a leaver
+// end whatever redundant requests it made before (C06).
+func partDepartureScripts(c *check.Ctx, a *acc) {
+	bin, err := c.WS.Build("lab", "plain")
+	if err != nil {
+		c.Inconc("build failed: " + err.Error())
+		return
+	}
+	var mu sync.Mutex
+	done := 0
+	mods := []string{"vod", "", "vo", "d"}
+	n := 8 * len(mods)
+	parallel(n, 8, func(i int) {
+		cfg := e1.Config{Seed: c.Seed + int64(i), MaxConns: 4, MaxSess: 2, Mods: mods[i/8], CheckEvery: 4, Avoid: avoidList()}
+		r, err := e1.RunScript(c.WS, bin, sut.LabOpts{Frame: 2 * time.Millisecond, Name: "depscript"}, cfg, e1.DepartureScript(i%8))
+		mu.Lock()
+		defer mu.Unlock()
+		if err != nil {
+			c.Inconc(err.Error())
+			return
+		}
+		if r.Inconclusive != "" {
+			c.Inconc(r.Inconclusive)
+			return
+		}
+		done++
+		if r.Fail != nil {
+			fd := e1Finding(r.Fail)
+			fd.Trigger = fmt.Sprintf("departure-script/%d", i%8)
+			fd.Engine = "E1 departure script"
+			if !fd.Concerns("C06") {
+				fd.Props = append(fd.Props, "C06")
+			}
+			c.Report(fd)
+		}
+	})
+	c.Coverage["departure_scripts_run"] = done
+	a.add(done, done, "E1 departure scripts: directed histories (8 variants x 4 module subsets) in which the sole subscriber of a component type leaves by close, reset or session switch - in half of them after redundant unsubscribes (repeated, never subscribed, unknown type) - before components of that type are added and deleted in front of a bystander, a newcomer becomes the sole subscriber and leaves again, and owners of entities with components leave; judged step by step by the reference model",
+		map[string]any{"engine": "E1 departure script", "runs": done})
+}
+
+// partIDScripts: directed histories about ids across session switches (C10).
+func partIDScripts(c *check.Ctx, a *acc) {
+	bin, err := c.WS.Build("lab", "plain")
+	if err != nil {
+		c.Inconc("build failed: " + err.Error())
+		return
+	}
+	var mu sync.Mutex
+	done := 0
+	mods := []string{"vod", "o", "od"}
+	n := 6 * len(mods)
+	parallel(n, 8, func(i int) {
+		cfg := e1.Config{Seed: c.Seed + int64(i), MaxConns: 4, MaxSess: 2, Mods: mods[i/6], CheckEvery: 5, Avoid: avoidList()}
+		r, err := e1.RunScript(c.WS, bin, sut.LabOpts{Frame: 2 * time.Millisecond, Name: "idscript"}, cfg, e1.IDScript(i%6+(i%2)*3))
+		mu.Lock()
+		defer mu.Unlock()
+		if err != nil {
+			c.Inconc(err.Error())
+			return
+		}
+		if r.Inconclusive != "" {
+			c.Inconc(r.Inconclusive)
+			return
+		}
+		done++
+		if r.Fail != nil {
+			fd := e1Finding(r.Fail)
+			fd.Trigger = fmt.Sprintf("id-script/%d", i%6)
+			fd.Engine = "E1 id script"
+			if !fd.Concerns("C10") {
+				fd.Props = append(fd.Props, "C10")
+			}
+			c.Report(fd)
+		}
+	})
+	c.Coverage["id_scripts_run"] = done
+	a.add(done, done, "E1 id scripts: directed histories in which members switch from a session holding 0-2 asset instances to a fresh one (owning nothing, or an entity with an asset) and allocate entities and asset instances there interleaved with a member that joined it directly, release and allocate again, and go back; every id issued is judged by the model (unique per session and id space, never reissued)",
+		map[string]any{"engine": "E1 id script", "runs": done})
 }
